@@ -300,7 +300,11 @@ func buildPNG(c Case, variant int) Built {
 			if strings.HasPrefix(a.Size, "pad:") { // exact size: places what follows at a chosen offset
 				n, _ = strconv.Atoi(a.Size[4:])
 			}
-			add(gen.Chunk(ancTypes[(k+variant)%len(ancTypes)], gen.Payload(n, uint32(k), true)))
+			if a.Size == "small" && (k+variant)%3 == 0 {
+				add(gen.Chunk("eXIf", gen.ExifThumb(false))) // Exif with a JPEG thumbnail inside
+			} else {
+				add(gen.Chunk(ancTypes[(k+variant)%len(ancTypes)], gen.Payload(n, uint32(k), true)))
+			}
 		case "iCCP":
 			hasICC = true
 			// profile names are Latin-1: printable ASCII and 161..255 (PNG 11.3.3.3); every other
@@ -392,8 +396,8 @@ func buildJPEG(c Case, variant int) Built {
 				segs = append(segs, gen.APP(n, gen.Payload(24+variant, uint32(n), true)))
 			default:
 				switch variant % 4 {
-				case 0:
-					segs = append(segs, gen.APP(1, gen.Payload(20, 1, true)))
+				case 0: // Exif with a JPEG thumbnail of other dimensions inside
+					segs = append(segs, gen.APP(1, gen.ExifThumb(true)))
 				case 1:
 					segs = append(segs, gen.COM(gen.Payload(5000, 2, true)))
 				case 2:
@@ -447,7 +451,11 @@ func buildWebP(c Case, variant int) Built {
 		case "ICCP":
 			chunks = append(chunks, gen.WC("ICCP", WebPPayload(a.Pid, variant)))
 		case "OTHERW":
-			chunks = append(chunks, gen.WC(a.KindStr(), gen.Payload(7+variant, 4, true)))
+			if a.KindStr() == "EXIF" && variant%2 == 0 {
+				chunks = append(chunks, gen.WC("EXIF", gen.ExifThumb(variant%4 == 2))) // with a JPEG thumbnail inside
+			} else {
+				chunks = append(chunks, gen.WC(a.KindStr(), gen.Payload(7+variant, 4, true)))
+			}
 		}
 	}
 	data, l := gen.BuildWebP(chunks, -1)
